@@ -36,7 +36,10 @@ Core ==
     <<SNext(<<>>)>>, <<SNext(<<I>>)>>,
     <<SWhile(Bin("lt", A, LI(2)))>>,
     <<SWend>>,
-    <<SEnd>>, <<SStop>>, <<SRem>> }
+    <<SEnd>>, <<SStop>>, <<SRem>>,
+    \* a subroutine left from inside its own loop, called from inside a loop of the caller
+    <<SFor(I, LI(1), LI(2)), SGosub(L3), PA, SNext(<<>>)>>,
+    <<SFor(J, LI(1), LI(2)), SLet(A, Bin("add", A, LI(1))), SReturn>> }
 More ==
   { <<SOnGosub(LI(3), <<L3>>), PS(<<111>>)>>,       \* out of range: falls through, pushes nothing
     <<SOnGoto(Un("neg", LI(1)), <<L2>>)>>,          \* negative: ILLEGAL FUNCTION CALL
